@@ -4,7 +4,7 @@ use vstd::std_specs::cmp::OrdSpec;
 use std::io::{self, Read, BufReader, BufRead, Take};
 use std::str;
 use http::header::{HeaderMap, HeaderName, HeaderValue, CONTENT_LENGTH, TRANSFER_ENCODING};
-use http::{Method, StatusCode};
+use http::{Method, StatusCode, Version};
 //@@ define head
 verus! {
 
